@@ -2099,6 +2099,9 @@ def get_fit_params(
     if params_0 is not None and not (
         bounds[0] <= params_0[0] and params_0[0] <= bounds[1]
     ):
+        # Work on a copy: the caller's parameters (the best fit that is
+        # reported) must not be changed by the choice of a starting point.
+        params_0 = list(params_0)
         params_0[0] = (bounds[0] + bounds[1]) / 2
 
     # print("Bounds", bounds)
